@@ -8,3 +8,4 @@ pairs, tied to the code by the registry harness (go/cmd/harness/c06.go, codec_*.
 import Dblib.Props.C10.Basic
 import Dblib.Props.C10.Cursor
 import Dblib.Props.C10.Values
+import Dblib.Props.C10.Fields
